@@ -210,3 +210,8 @@ func ReportViolation(prop, test string, replay any, msg string) string {
 func KnownFindingLine(prop, what string) {
 	fmt.Printf("KNOWN-FINDING: property=%s %s\n", prop, what)
 }
+
+// ReportViolationAt prints the marker for a replayed case.
+func ReportViolationAt(prop, test, path string) {
+	fmt.Printf("VERIF-VIOLATION property=%s test=%s replay=%s\n", prop, test, path)
+}
